@@ -230,6 +230,22 @@ fn metric(dist: u8, a: &[f32], b: &[f32]) -> f64 {
 }
 
 /// rounding allowance for an f32 evaluation of a sum of `dim` squares (any association, FMA or not)
+/// rounding bound for an f32 evaluation of the configured metric on (q, v): relative to the magnitude of
+/// the summed terms (not of the result, which can be small by cancellation)
+fn metric_tol(dist: u8, q: &[f32], v: &[f32]) -> f64 {
+    let dim = q.len().min(v.len());
+    let mag: f64 = q.iter().zip(v).map(|(a, b)| (*a as f64 * *b as f64).abs()).sum();
+    let eps = f32::EPSILON as f64;
+    if dist == 2 {
+        8.0 * (dim as f64 + 4.0) * eps * mag + 1e-30
+    } else {
+        let nq: f64 = q.iter().map(|a| (*a as f64) * (*a as f64)).sum::<f64>().sqrt();
+        let nv: f64 = v.iter().map(|a| (*a as f64) * (*a as f64)).sum::<f64>().sqrt();
+        let rel = if nq > 0.0 && nv > 0.0 { mag / (nq * nv) } else { 1.0 };
+        16.0 * (dim as f64 + 4.0) * eps * (rel + 1.0) + 1e-6
+    }
+}
+
 fn l2_tol(dim: usize, d: f64) -> f64 {
     4.0 * (dim as f64 + 4.0) * (f32::EPSILON as f64) * d + 1e-37
 }
@@ -551,9 +567,10 @@ impl<'a> Exec<'a> {
         let dim = self.p.dim;
         let exact_l2: Vec<f64> = live_rs.iter().map(|r| l2sq(&pr.q, &self.live[&r.row_id])).collect();
         let exact_m: Vec<f64> = live_rs.iter().map(|r| metric(self.p.dist, &pr.q, &self.live[&r.row_id])).collect();
+        let tol_m: Vec<f64> = live_rs.iter().map(|r| metric_tol(self.p.dist, &pr.q, &self.live[&r.row_id])).collect();
         let ordered = |ds: &[f64], l2like: bool| -> bool {
-            ds.windows(2).all(|w| {
-                let tol = if l2like { l2_tol(dim, w[0].max(w[1])) } else { 1e-5 * (1.0 + w[0].abs().max(w[1].abs())) };
+            ds.windows(2).enumerate().all(|(i, w)| {
+                let tol = if l2like { l2_tol(dim, w[0].max(w[1])) } else { (tol_m[i] + tol_m[i + 1]).max(1e-5 * (1.0 + w[0].abs().max(w[1].abs()))) };
                 w[0] <= w[1] + tol
             })
         };
@@ -568,7 +585,7 @@ impl<'a> Exec<'a> {
         } else {
             let name = ["L2", "Cosine", "InnerProduct"][self.p.dist as usize];
             let m_ok = ordered(&exact_m, false);
-            let mdist_ok = live_rs.iter().zip(&exact_m).all(|(r, d)| ((r.distance as f64) - d).abs() <= 1e-4 * (1.0 + d.abs()));
+            let mdist_ok = live_rs.iter().zip(&exact_m).zip(&tol_m).all(|((r, d), t)| ((r.distance as f64) - d).abs() <= t.max(1e-4 * (1.0 + d.abs())));
             if !m_ok || !mdist_ok {
                 if l2_ok && dist_ok {
                     self.viol(
